@@ -302,8 +302,24 @@ def check(ctx: Ctx) -> None:
         and norm(sims[0].args[1]).replace(" ", "").replace("\n", "") == "_interpolate([args.max_frequency,args.min_frequency],args.num_per_decade)" \
         and enclosing(sims[0], (ast.For,)) is loops[0]
     pc = model.fi(f"{CLI}.utility", "parse_circuits")
-    t = norm(pc.node)
-    good = good and "circuits.append(parse_cdc(cdc))" in t and "for i, cdc in enumerate(args.input)" in t
+    try:
+        # parse_circuits interpreted: every given code, in order, becomes parse_cdc(code); a <specifier> becomes the mock
+        # circuits of that specifier, in their order
+        from ..miniinterp import InterpRaise, Mini, module_globals
+
+        class _Args:
+            input = ["R(RC)", "<M1>", "RL", "<M2:noise=1>"]
+        st_ = {"parse_cdc": lambda s_: ("parsed", s_), "get_mock_circuits": lambda spec: [("mock", spec, 0), ("mock", spec, 1)], "Circuit": None, "Namespace": None}
+        g_ = module_globals(ctx.repo.modules[f"{CLI}.utility"].tree, st_)
+        g_.update(st_)
+        got_ = Mini(g_, max_steps=50000).call_function(pc.node, {pc.node.args.args[0].arg: _Args()})
+        want_ = [("parsed", "R(RC)"), ("mock", "M1", 0), ("mock", "M1", 1), ("parsed", "RL"), ("mock", "M2:noise=1", 0), ("mock", "M2:noise=1", 1)]
+        good = good and list(got_) == want_
+    except InterpRaise:
+        good = False
+    except AnalysisError:
+        t = norm(pc.node)
+        good = good and "circuits.append(parse_cdc(cdc))" in t and "for i, cdc in enumerate(args.input)" in t
     if good:
         ctx.ok()
     else:
